@@ -177,6 +177,8 @@ pub fn roundtrip_case(prefix_bools: usize, vals: &[Val]) -> Vec<String> {
     ops.extend(all.iter().map(|v| v.dec_op()));
     ops.push("d.filler".into());
     ops.push("d.end".into());
+    // the same values through the top-level `flat::encode` / `flat::decode` (always start at bit 0)
+    for v in vals.iter().take(4) { if let Some(op) = top_rt_op(v) { ops.push(op); } }
     ops
 }
 
@@ -307,6 +309,73 @@ fn do_dec(d: &mut Decoder, op: &[String]) -> Option<Result<Val, DErr>> {
     })
 }
 
+fn top_err(e: &DErr) -> String {
+    // the `err` reply of a top-level decode carries the class only (`decode` returns no cursor)
+    err_class(e)
+}
+
+/// `t.rt <kind> <value>` / `t.dec <kind> <hex>`: the top-level `flat::encode` / `flat::decode` of mod.rs
+fn run_top(op: &[String], out: &mut Out, o: &mut Oracle) {
+    use pallas_codec::flat::{decode, encode};
+    let (Some(kind), Some(arg)) = (op.get(1), op.get(2)) else { out.reply("bad-op".into()); return; };
+    macro_rules! rt {
+        ($t:ty, $v:expr, $show:expr) => {{
+            let v: $t = $v;
+            match guard(|| encode(&v)) {
+                None => { out.viol(format!("enc-panic-top-{kind}"), format!("flat::encode panicked on {arg}")); out.panic(); }
+                Some(Err(_)) => out.err("align"),
+                Some(Ok(bytes)) => match guard(|| decode::<$t>(&bytes)) {
+                    None => { out.viol(format!("dec-panic-top-{kind}"), format!("flat::decode panicked on {}", hex(&bytes))); out.panic(); }
+                    Some(Ok(back)) => {
+                        if back != v { out.viol(format!("roundtrip-top-{kind}"), format!("encode({arg}) = {} decodes to {}", hex(&bytes), $show(&back))); }
+                        else { o.matched += 1; out.cov(format!("rt-top {kind}")); }
+                        out.ok(format!("{} {}", hex(&bytes), $show(&back)));
+                    }
+                    Some(Err(e)) => {
+                        out.viol(format!("roundtrip-top-{kind}"), format!("encode({arg}) = {} does not decode: {}", hex(&bytes), top_err(&e)));
+                        out.ok(format!("{} err {}", hex(&bytes), top_err(&e)));
+                    }
+                },
+            }
+        }};
+    }
+    macro_rules! dec {
+        ($t:ty, $show:expr) => {{
+            let Some(bytes) = unhex(arg) else { out.reply("bad-op".into()); return; };
+            match guard(|| decode::<$t>(&bytes)) {
+                None => { out.viol(format!("dec-panic-top-{kind}"), format!("flat::decode::<{}> panicked on {}", stringify!($t), arg)); out.panic(); }
+                Some(Ok(v)) => { o.dec_ok += 1; out.ok($show(&v)); }
+                Some(Err(e)) => { o.dec_err += 1; out.err(top_err(&e)); }
+            }
+        }};
+    }
+    let parse_fail = |out: &mut Out| out.reply("bad-op".into());
+    match (op[0].as_str(), kind.as_str()) {
+        ("t.rt", "bool") => match arg.as_str() { "true" => rt!(bool, true, |b: &bool| b.to_string()), "false" => rt!(bool, false, |b: &bool| b.to_string()), _ => parse_fail(out) },
+        ("t.rt", "u8") => match arg.parse::<u8>() { Ok(x) => rt!(u8, x, |b: &u8| b.to_string()), _ => parse_fail(out) },
+        ("t.rt", "word") => match arg.parse::<usize>() { Ok(x) => rt!(usize, x, |b: &usize| b.to_string()), _ => parse_fail(out) },
+        ("t.rt", "int") => match arg.parse::<isize>() { Ok(x) => rt!(isize, x, |b: &isize| b.to_string()), _ => parse_fail(out) },
+        ("t.rt", "char") => match arg.parse::<u32>().ok().and_then(char::from_u32) { Some(x) => rt!(char, x, |b: &char| (*b as u32).to_string()), _ => parse_fail(out) },
+        ("t.rt", "bytes") => match unhex(arg) { Some(x) => rt!(Vec<u8>, x, |b: &Vec<u8>| hex(b)), _ => parse_fail(out) },
+        ("t.rt", "utf8") => match unhex(arg).and_then(|b| String::from_utf8(b).ok()) { Some(x) => rt!(String, x, |b: &String| hex(b.as_bytes())), _ => parse_fail(out) },
+        ("t.dec", "bool") => dec!(bool, |b: &bool| b.to_string()),
+        ("t.dec", "u8") => dec!(u8, |b: &u8| b.to_string()),
+        ("t.dec", "word") => dec!(usize, |b: &usize| b.to_string()),
+        ("t.dec", "int") => dec!(isize, |b: &isize| b.to_string()),
+        ("t.dec", "char") => dec!(char, |b: &char| (*b as u32).to_string()),
+        ("t.dec", "bytes") => dec!(Vec<u8>, |b: &Vec<u8>| hex(b)),
+        ("t.dec", "utf8") => dec!(String, |b: &String| hex(b.as_bytes())),
+        _ => parse_fail(out),
+    }
+}
+
+pub fn top_rt_op(v: &Val) -> Option<String> {
+    match v {
+        Val::Bool(_) | Val::U8(_) | Val::Word(_) | Val::Int(_) | Val::Char(_) | Val::Bytes(_) | Val::Utf8(_) => Some(format!("t.rt {} {}", v.kind(), v.show())),
+        _ => None,
+    }
+}
+
 pub fn run_case(case: &Case, out: &mut Out) {
     let o = run_ops(case, out);
     if o.at_end_ok && o.matched >= 2 && o.unaligned_starts >= 1 { out.nontrivial(); }
@@ -342,6 +411,11 @@ pub fn run_ops(case: &Case, out: &mut Out) -> Oracle {
                 o.armed = false;
             }
             dpos = 0; dused = 0;
+            i += 1;
+            continue;
+        }
+        if name.starts_with("t.") {
+            run_top(op, out, &mut o);
             i += 1;
             continue;
         }
